@@ -219,7 +219,7 @@ def run_case(case):
 
 def plan(tier, seed):
     r = core.rng(PROPERTY, seed)
-    n = 2000 if tier == "quick" else 30000
+    n = 4000 if tier == "quick" else 30000
     cases = {'rel': [], 'avx512': [], 'asan': []}
     for i in range(n):
         variant = 'rel'
